@@ -73,6 +73,21 @@ type MBucket struct {
 type Model struct {
 	Buckets map[string]*MBucket
 	seq     int64
+	// Finished remembers upload ids that were completed or aborted, so that the
+	// generator can re-use them: they must answer NoSuchUpload and touch nothing.
+	Finished []FinishedUpload
+}
+
+type FinishedUpload struct {
+	Bucket, Key, ID string
+	How             string // completed | aborted
+}
+
+func (m *Model) finish(bucket, key, id, how string) {
+	m.Finished = append(m.Finished, FinishedUpload{Bucket: bucket, Key: key, ID: id, How: how})
+	if len(m.Finished) > 24 {
+		m.Finished = m.Finished[len(m.Finished)-24:]
+	}
 }
 
 func NewModel() *Model { return &Model{Buckets: map[string]*MBucket{}} }
@@ -613,10 +628,12 @@ func (m *Model) Apply(op *Op, res *Result) *MVersion {
 		u := m.Buckets[op.Bucket].Uploads[op.UploadID]
 		u.Parts[op.PartNumber] = &MUploadPart{Content: append([]byte{}, content...)}
 	case OpMpuAbort:
+		m.finish(op.Bucket, op.Key, op.UploadID, "aborted")
 		delete(m.Buckets[op.Bucket].Uploads, op.UploadID)
 	case OpMpuComplete:
 		b := m.Buckets[op.Bucket]
 		u := b.Uploads[op.UploadID]
+		m.finish(op.Bucket, op.Key, op.UploadID, "completed")
 		nums := make([]int, 0, len(u.Parts))
 		for n := range u.Parts {
 			nums = append(nums, int(n))
